@@ -390,7 +390,7 @@ func flowCorpus() (names []string, srcs []string) {
 func flowPart(r *hlib.Run, l *loaded) {
 	nProg, nHist := 128, 16
 	if r.Thorough {
-		nProg, nHist = 3000, 32
+		nProg, nHist = 1600, 32
 	}
 	cnames, csrcs := flowCorpus()
 	total := len(csrcs) + nProg
@@ -484,7 +484,7 @@ func flowPart(r *hlib.Run, l *loaded) {
 	// the interpreter against the generated C (a sample of the programs)
 	nC := 8
 	if r.Thorough {
-		nC = 160
+		nC = 64
 	}
 	flowCCompare(r, results, nC)
 	r.Extra("flow_programs_accepted", accepted)
